@@ -28,6 +28,8 @@ pub enum Op {
   ErrorA,
   /// subscribe a fresh probe to the pipeline
   Subscribe,
+  /// subscribe a probe whose first callback subscribes one more probe
+  SubscribeNesting,
   /// unsubscribe the pre-made subscription
   Unsubscribe,
   /// unsubscribe the source subject A itself (through a clone)
@@ -153,8 +155,11 @@ pub fn build(shape: Shape, a: &Subj, b: &Subj, fin: &Arc<AtomicUsize>) -> Pipe {
       .buffer(b.map(|_| ()))
       .map(|v: Vec<Item>| v.iter().fold(0, |acc, x| acc * 100 + x))
       .box_it(),
+    // one group only: group_by drains a HashMap on the terminal, and the
+    // iteration order of a std HashMap differs from execution to execution,
+    // which would make schedules irreproducible
     Shape::GroupBy => a
-      .group_by::<_, _, Subj>(|v: &Item| v % 2)
+      .group_by::<_, _, Subj>(|_: &Item| 0)
       .flat_map_threads(|g| g)
       .box_it(),
     Shape::MergeTake => a.merge_threads(b).take(1).box_it(),
@@ -195,6 +200,22 @@ fn run_op(sh: &Arc<Shared>, thread: usize, op: Op) {
     Op::ErrorA => sh.a.clone().error(7),
     Op::Subscribe => {
       let p = TProbe::new("late", &sh.ctx);
+      let pipe = build(sh.pipe_src.0, &sh.a, &sh.b, &sh.pipe_src.1);
+      let _u = pipe.actual_subscribe(p.clone());
+      let end = sh.ctx.stamp();
+      sh.late_probes.lock().unwrap().push((p, start, end));
+    }
+    Op::SubscribeNesting => {
+      let (sh2, start2) = (sh.clone(), start);
+      let p = TProbe::with_hook("nesting", &sh.ctx, move || {
+        let inner = TProbe::new("nested", &sh2.ctx);
+        let pipe = build(sh2.pipe_src.0, &sh2.a, &sh2.b, &sh2.pipe_src.1);
+        let s0 = sh2.ctx.stamp();
+        let _u = pipe.actual_subscribe(inner.clone());
+        let e0 = sh2.ctx.stamp();
+        let _ = start2;
+        sh2.late_probes.lock().unwrap().push((inner, s0, e0));
+      });
       let pipe = build(sh.pipe_src.0, &sh.a, &sh.b, &sh.pipe_src.1);
       let _u = pipe.actual_subscribe(p.clone());
       let end = sh.ctx.stamp();
@@ -458,7 +479,7 @@ pub fn script_scenario(prop: &str, shape: Shape, scripts: Vec<Vec<Op>>, oracle: 
       // what their definition prescribes whatever the interleaving was
       {
         let ops: Vec<Op> = calls.iter().map(|c| c.op).collect();
-        let undisturbed = !ops.iter().any(|o| matches!(o, Op::Unsubscribe | Op::UnsubSubject | Op::ErrorA | Op::Subscribe));
+        let undisturbed = !ops.iter().any(|o| matches!(o, Op::Unsubscribe | Op::UnsubSubject | Op::ErrorA | Op::Subscribe | Op::SubscribeNesting));
         let a_done = ops.contains(&Op::CompleteA);
         let b_done = ops.contains(&Op::CompleteB);
         // scripts end with their completion, so every item preceded it
@@ -1088,7 +1109,7 @@ fn seqs(alpha: &[Op], max_len: usize) -> Vec<Vec<Op>> {
     for s in &level {
       for o in alpha {
         // at most one use of each consuming operation per script
-        if matches!(o, Op::Unsubscribe | Op::Subscribe) && s.contains(o) {
+        if matches!(o, Op::Unsubscribe | Op::Subscribe | Op::SubscribeNesting) && s.contains(o) {
           continue;
         }
         let mut n = s.clone();
@@ -1313,7 +1334,15 @@ pub fn plan(prop: &str, tier: Tier) -> Option<Plan> {
     }
     "C06" => {
       let c = if q { 2 } else { 3 };
-      let alpha = [Op::NextA(1), Op::CompleteA, Op::ErrorA, Op::Subscribe, Op::Unsubscribe, Op::UnsubSubject];
+      let alpha = [
+        Op::NextA(1),
+        Op::CompleteA,
+        Op::ErrorA,
+        Op::Subscribe,
+        Op::SubscribeNesting,
+        Op::Unsubscribe,
+        Op::UnsubSubject,
+      ];
       let s2 = seqs(&alpha, 2);
       for (i, x) in s2.iter().enumerate() {
         for y in s2.iter().skip(i) {
